@@ -115,6 +115,10 @@ def _scenarios(quick, seed):
         elif mode == 2:
             tgt["linker_chain"] = {"names": []}
             w["direct_auxv"] = "linker_chain"
+        if k % 3 == 1 and tgt["threads"]:
+            # the blamed thread has a descriptor table of its own: the handle stream is about the process' descriptors
+            tgt["threads"][0]["unshare_files"] = True
+            w["blamed"] = {"slot": 0}
         scns.append({"id": f"proc/{k}", "target": tgt, "writer": w, "cleanup": tgt["open_files"]})
     return scns
 
